@@ -965,6 +965,12 @@ func (self *Node) Move(dst, src int) error {
 		return err
 	}
 
+	/* positions outside of the array move nothing, whether or not a slot was unset before:
+	 * the translation below would otherwise take them for physical slots */
+	if n := self.len(); dst < 0 || dst >= n || src < 0 || src >= n {
+		return nil
+	}
+
 	// check if any unset node exists
 	if l := s.Len(); self.len() != l {
 		di, si := dst, src
